@@ -1012,8 +1012,14 @@ func (c14) Run(input any) kit.Case {
 		svcOK := len(validation.IsDNS1035Label(svc)) == 0
 		depOK := len(validation.IsDNS1123Subdomain(dep)) == 0
 		trialOK := len(validation.IsDNS1123Subdomain(trialName)) == 0 && len(validation.IsDNS1123Label(trialName)) == 0
-		names = fmt.Sprintf("(Some {| n_algo := %s; n_algo_ok := %s; n_service_ok := %s; n_deploy_ok := %s; n_suffix := %s; n_trial_ok := %s |})",
-			cstr(algo), kit.Bool(algoOK), kit.Bool(svcOK), kit.Bool(depOK), cstr(string(suffix)), kit.Bool(trialOK))
+		inCfg := false
+		for _, ce := range in.World.Cfg.Sug {
+			if ce.Key == algo {
+				inCfg = true
+			}
+		}
+		names = fmt.Sprintf("(Some {| n_algo := %s; n_algo_ok := %s; n_service_ok := %s; n_deploy_ok := %s; n_suffix := %s; n_trial_ok := %s; n_algo_in_cfg := %s |})",
+			cstr(algo), kit.Bool(algoOK), kit.Bool(svcOK), kit.Bool(depOK), cstr(string(suffix)), kit.Bool(trialOK), kit.Bool(inCfg))
 		obs["service"], obs["trial"] = svc, trialName
 		obs["names_valid"] = []bool{svcOK, depOK, trialOK}
 		// build trials with the real generator (hyperparameter experiments only: NAS assignments come from the algorithm service)
